@@ -41,6 +41,8 @@ func c02(p *core.Program, r *core.Report) {
 	c02CountRepaired(p, r)
 	r.Rule("R6", "Last may be empty: a function of package roaring that takes the container returned by Containers.Last tests it (its N(), or against nil) on every path before calling any other method on it")
 	c02LastMayBeEmpty(p, r)
+	r.Rule("R7", "shared containers are frozen: a package-level *Container of package roaring (fullContainer, which unions hand out whenever one side is full) is initialised, and only ever assigned, from (*Container).Freeze, so that Thaw copies it before any holder writes")
+	sharedSingletonsFrozen(p, r, "R7")
 	r.NotDecided = "agreement of all read paths with the sequential model for all histories; exact changed-bit counts (value reasoning)"
 	rp := p.Pkg("roaring")
 	if rp == nil {
